@@ -54,6 +54,12 @@ P = {
     "C16": (True, EX, "4/C16", "exhaustive enumeration of all base64 groups (2^24 encodes, 64^4 decodes) and of all '=' placements / byte substitutions for the key validator, two-sided oracle with a don't-care class",
             "Encoder on all 2^24 three-byte groups and all tails; decoder on all four-symbol groups and padded tails; validator on all 2^24 '=' placements, every byte at every position, class pairs, all lengths 0..40; accepted strings are decoded into a 16-byte heap buffer under ASan; printed keys round-trip.",
             "RFC 4648 reference written in the harness (cross-checked with Python base64 in setup)"),
+    "C13": (True, FE, "4/C13", "exhaustive crash-point enumeration: every prefix of the write history and every torn byte prefix inside every write, real verify+decrypt on each state",
+            "execute_encrypt writes through a logging fopencookie stream (three stdio buffer modes); every crash state (write prefix x byte prefix of the torn write) is materialised and given to the real verify and decrypt; only states whose bytes equal the complete file may be accepted.",
+            "process-death model: writes persist in issue order, last one torn at any byte; quick covers a third of the 5x3x3x6x3 grid, thorough all of it"),
+    "C18": (True, EX, "4/C18", "exhaustive configuration grid (T=2..16 x modes x seeds x chunk patterns), behavioural oracle on ciphertext relations, violations keyed by cause",
+            "For every T=2..16, non-ECB mode, five seeds and two chunk patterns the written file is inspected: IV fields distinct and seed dependent, and no two streams may start from the same value (equal chunks -> different ciphertext; CTR/OFB keystream not reused). The pinned format starts every stream from IV[0]: reported as the recorded known finding, any other cause is a violation.",
+            "known finding stream-start-iv:shared-with-stream-0 (format-level, not repairable without changing what C02 fixes)"),
 }
 PENDING = {}
 
